@@ -91,3 +91,48 @@ def wigm_main_loop(self):
     invariant(E.quota > E.V0)
     invariant(ghost('nH') + ghost('nE') >= E.electionProfile.nSeats)       # W2: enough candidates remain to fill the seats
     variant(2 * ghost('nH') + ghost('nP'))
+
+
+# --------------------------------------------------------------------------------------------- Minneapolis
+MplsRule = cls('droop.rules.mpls.Rule')
+
+
+@contract('droop.rules.mpls.Rule.count.<locals>.findCertainLosers', props=['C07', 'C01'], free={'E': 'Election', 'C': 'Candidates'},
+          trusted='prefix scan over the vote-sorted hopefuls built with list.append / list(): outside the verified subset; its '
+                  'postcondition (sure losers; enough remain) is checked by the bounded stand-in')
+def find_certain_losers(surplus: 'val', exclude: 'abs:Candidate|list0' = ()) -> 'abs:Candidate':
+    "certain losers: hopeful, not among this round's write-ins, and enough hopefuls remain to fill the seats"
+    ensures(forall(result, lambda c: and_(in_election(c), c.state == 'hopeful')))
+    ensures(forall(result, lambda c: not_(mem_opt(exclude, c))), name='disjoint from the write-ins defeated in the same round')
+    ensures(length(result) >= 0)
+    ensures(length(result) <= ghost('nH') - length_opt(exclude) - (E.electionProfile.nSeats - ghost('nE')) + slack0(exclude),
+            name='enough candidates remain')
+    modifies()
+
+
+@contract('droop.rules.mpls.Rule.count', props=['C01', 'C09'], site_props=['C02', 'C04', 'C06', 'C07'])
+def mpls_count(self: 'MplsRule'):
+    E = self.E
+    requires(count_entry(E))
+    ensures(ghost('nH') == 0, name='every candidate is decided: nobody is left hopeful')
+    ensures(ghost('nP') == 0, name='no transfer is left pending')
+    ensures(ghost('nW') == old(ghost('nW')), name='withdrawn candidates never change')
+    modifies_all(Candidate, 'state', 'pending', 'vote')
+    modifies_all(Ballot, 'index', 'weight')
+    modifies(E, 'quota', 'exhausted', 'round', 'surplus')
+    modifies_ghost('nH', 'nE', 'nD', 'nP', 'nlog', 'lasttag', 'lastmsg')
+
+
+@loops('droop.rules.mpls.Rule.count', anchor='while#1')
+def mpls_main_loop(self):
+    E = self.E
+    invariant(E.round >= 1)
+    invariant(implies(E.round == 1, forall('ref:droop.election.Election.Ballot', lambda b: implies(is_ballot(b), b.index == 0))))
+    invariant(E.quota > E.V0)
+    variant(ghost('nH'))
+
+
+# --------------------------------------------------------------------------------------------- CfER
+# cfer / cfer-batch: count() is NOT under contract.  An attempt with the same counter-level contract generated 393 obligations in
+# ~5 min; the surplus loop (every pending surplus transferred inside one `for c in C.pending()` with a nested ballot sweep) leaves
+# 30 of them undecided (weight sites, variant, pending=>quota on two paths).  Not claimed; covered by the bounded stand-ins only.
